@@ -52,12 +52,14 @@ fn d(s: &str) -> Decimal {
 const EXCH: [ExchangeId; 3] = [ExchangeId::BinanceSpot, ExchangeId::Okx, ExchangeId::BinanceSpot];
 
 fn instruments() -> IndexedInstruments {
-    // sorted order: binance btc_usdt (0), binance eth_usdt (1), okx btc_usdt (2)
-    IndexedInstruments::new([
-        fixtures::spot(ExchangeId::BinanceSpot, "btc", "usdt"),
-        fixtures::spot(ExchangeId::Okx, "btc", "usdt"),
-        fixtures::spot(ExchangeId::BinanceSpot, "eth", "usdt"),
-    ])
+    // sorted order: binance btc_usdt (0), binance eth_usdt (1), okx btc_usdt perpetual (2). The Okx instrument is a
+    // DERIVATIVE whose contract size is not 1 (0.01 btc per contract): prices and quantities of its fills and of its
+    // market data are in the same units, the estimate is the same expression
+    let mut okx = fixtures::perp(ExchangeId::Okx, "btc", "usdt", "usdt");
+    if let barter_instrument::instrument::kind::InstrumentKind::Perpetual(contract) = &mut okx.kind {
+        contract.contract_size = Decimal::new(1, 2);
+    }
+    IndexedInstruments::new([fixtures::spot(ExchangeId::BinanceSpot, "btc", "usdt"), okx, fixtures::spot(ExchangeId::BinanceSpot, "eth", "usdt")])
 }
 
 fn estimate(pos: &Position<QuoteAsset, InstrumentIndex>, price: Decimal) -> Decimal {
